@@ -125,7 +125,7 @@ Lemma prefix_from_lines first p q lines line :
 Proof.
   revert first. induction lines as [|l r IH]; intros first Hin; cbn [prefix_from] in Hin; [contradiction|].
   destruct Hin as [<-|Hin].
-  - destruct (isspace _); [left; reflexivity|]. right. exists l. split; [left; reflexivity|].
+  - destruct (nonempty l || negb (isspace _)); [|left; reflexivity]. right. exists l. split; [left; reflexivity|].
     destruct first; auto.
   - destruct (IH false Hin) as [H|(l' & Hl & H)]; [left; exact H|]. right. exists l'. split; [right; exact Hl|exact H].
 Qed.
